@@ -34,6 +34,16 @@ def attrOk (L : Lists) (c : Cfg) (el a : Str) : Bool :=
     optContains (c.allowAttrs.bind (fun l => mapGet l.content el)) a ||
     optContains (if !isOverride c.allowAttrs && c.useStrict then mapGet L.attrs el else none) a)
 
+/-- There is an attribute allow list (a mode is set, or a list was given). The lists hold names
+of HTML attributes; an attribute in a namespace (`xlink:href` in SVG/MathML content, which a
+serializer writes with its prefix) is not the HTML attribute of the same local name, so under an
+allow list it must not remain. -/
+def attrListed (c : Cfg) : Bool := c.allowAttrs.isSome || c.useStrict
+
+/-- The attribute (namespace and local name) may appear on element `el`. -/
+def attrOkA (L : Lists) (c : Cfg) (el : Str) (a : Attr) : Prop :=
+  attrOk L c el a.name = true ∧ (attrListed c = true → a.ns = [])
+
 /-- The value of attribute `a` on `el` starts with a denied scheme. -/
 def denied (c : Cfg) (el a value : Str) : Bool :=
   schemesHit ((c.denySchemes.bind (mapGet · el)).bind (mapGet · a)) value
@@ -123,7 +133,7 @@ acceptable value, and every class is allowed. -/
 def Keeps (L : Lists) (c : Cfg) (d : Nat) (n : Str) (as : List Attr) : Prop :=
   elemOk L c n = true ∧
   (∀ m, maxDepthValue L c = some m → d < m) ∧
-  (∀ a ∈ as, attrOk L c n a.name = true ∧ valueOk L c n a.name a.value = true ∧
+  (∀ a ∈ as, attrOkA L c n a ∧ valueOk L c n a.name a.value = true ∧
     (a.name = className → ∀ cl ∈ splitWs a.value, classOk L c n cl = true))
 
 /-- … and, in addition, the element is not the subject of a replacement. -/
